@@ -61,7 +61,10 @@ fn check_framing(out: &[u8], fgi: usize, bgi: usize, data: &[u8], accepted: usiz
     // locate the data: the output must be  <codes> data[..accepted] <reset>
     let d = &data[..accepted];
     let mut found = None;
-    for start in 0..=out.len().saturating_sub(d.len()) {
+    if out.len() < d.len() {
+        return Err(("c17:framing".into(), format!("output {:?} is shorter than the data {:?}", show(out), show(d))));
+    }
+    for start in 0..=out.len() - d.len() {
         if &out[start..start + d.len()] == d {
             if let (Ok(a), Ok(b)) = (sgr_only(&out[..start], SgrState::default()), sgr_only(&out[start + d.len()..], want)) {
                 let exact = a == want && b == SgrState::default();
@@ -160,6 +163,9 @@ pub fn child(args: &[String]) -> i32 {
     let bgi: usize = args.get(2).and_then(|s| s.parse().ok()).unwrap_or(0);
     let data = refmodel::json::unhex(args.get(3).map(|s| s.as_str()).unwrap_or("")).unwrap_or_default();
     let (fg, bg) = (color(fgi), color(bgi));
+    if let Some(inner) = kind.strip_prefix("tls-") {
+        return child_tls(inner, fg, bg, data);
+    }
     let r = match kind {
         "stdout" => std::io::stdout().write_colored(fg, bg, &data),
         "stdout_lock" => std::io::stdout().lock().write_colored(fg, bg, &data),
@@ -179,6 +185,82 @@ pub fn child(args: &[String]) -> i32 {
         print!("{report}");
     }
     0
+}
+
+fn write_kind(kind: &str, fg: Option<anstyle::AnsiColor>, bg: Option<anstyle::AnsiColor>, data: &[u8]) -> std::io::Result<usize> {
+    match kind {
+        "stdout" => std::io::stdout().write_colored(fg, bg, data),
+        "stdout_lock" => std::io::stdout().lock().write_colored(fg, bg, data),
+        "stderr" => std::io::stderr().write_colored(fg, bg, data),
+        _ => std::io::stderr().lock().write_colored(fg, bg, data),
+    }
+}
+
+struct Bye(String, Option<anstyle::AnsiColor>, Option<anstyle::AnsiColor>);
+
+impl Drop for Bye {
+    fn drop(&mut self) {
+        let _ = write_kind(&self.0, self.1, self.2, b"bye!");
+        let _ = std::io::stdout().flush();
+    }
+}
+
+thread_local! {
+    static BYE: RefCell<Option<Bye>> = const { RefCell::new(None) };
+}
+
+/// `vh c17-child tls-<kind> ...`: the coloured write happens on a spawned thread that owns a thread-local whose
+/// destructor makes another coloured write on the same stream while the thread is being torn down (a logger saying
+/// good-bye); the thread-local is initialised before the first write, so it is destroyed after anything that write
+/// may have created.
+fn child_tls(kind: &str, fg: Option<anstyle::AnsiColor>, bg: Option<anstyle::AnsiColor>, data: Vec<u8>) -> i32 {
+    let k = kind.to_string();
+    let h = std::thread::spawn(move || {
+        BYE.with(|b| *b.borrow_mut() = Some(Bye(k.clone(), fg, bg)));
+        let r = write_kind(&k, fg, bg, &data);
+        let _ = std::io::stdout().flush();
+        r
+    });
+    let r = match h.join() {
+        Ok(r) => r,
+        Err(_) => return 4,
+    };
+    let _ = std::io::stdout().flush();
+    let report = match r {
+        Ok(n) => format!("ok {n}"),
+        Err(e) => format!("err {:?}", e.kind()),
+    };
+    if kind.starts_with("stdout") {
+        eprint!("{report}");
+    } else {
+        print!("{report}");
+    }
+    0
+}
+
+/// The parent side of `tls-<kind>`: the child ends normally and the stream holds two whole frames.
+pub fn check_stdio_tls(kind: &str, fgi: usize, bgi: usize, data: &[u8]) -> Result<(), (String, String)> {
+    let exe = std::env::current_exe().map_err(|e| ("c17:harness".to_string(), e.to_string()))?;
+    let out = std::process::Command::new(exe)
+        .args(["c17-child", &format!("tls-{kind}"), &fgi.to_string(), &bgi.to_string(), &refmodel::json::hex(data)])
+        .stdin(std::process::Stdio::null())
+        .output()
+        .map_err(|e| ("c17:harness".to_string(), e.to_string()))?;
+    if !out.status.success() {
+        return Err((format!("c17:{kind}:child-died"), format!("a coloured write from a thread-local destructor: the child process ended with {:?}: {:?}", out.status, show(&out.stderr[..out.stderr.len().min(300)]))));
+    }
+    let (stream, report) = if kind.starts_with("stdout") { (&out.stdout, &out.stderr) } else { (&out.stderr, &out.stdout) };
+    let report = String::from_utf8_lossy(report).into_owned();
+    let Some(n) = report.strip_prefix("ok ").and_then(|s| s.parse::<usize>().ok()) else {
+        return Err((format!("c17:{kind}:unexpected-error"), format!("write on a pipe reported {report:?}")));
+    };
+    let n = n.min(data.len());
+    for cut in 0..=stream.len() {
+        if check_framing(&stream[..cut], fgi, bgi, data, n).is_ok() && check_framing(&stream[cut..], fgi, bgi, b"bye!", 4).is_ok() {
+            return Ok(());
+        }
+    }
+    Err((format!("c17:{kind}:frames-with-thread-local-destructor"), format!("expected the frame of the thread's write followed by the frame written while its thread-locals were destroyed, the pipe holds {:?}", show(&stream[..stream.len().min(200)]))))
 }
 
 fn mt_record(tid: u64, seq: u64) -> (usize, usize, Vec<u8>) {
@@ -654,6 +736,24 @@ pub fn run(cfg: &Cfg) -> Stats {
                 }
             }
         }
+        // every data length up to 1100 bytes (and around 2 KiB / 4 KiB) for three colour pairs on every writer kind: a
+        // staging buffer of any small size has its edge somewhere in here
+        if cfg.tier != Tier::Tiny {
+            for len in (0..=1100usize).chain(2040..=2056).chain(4088..=4104) {
+                k += 1;
+                if k % n != shard {
+                    continue;
+                }
+                let data: Vec<u8> = (0..len).map(|j| if j % 61 == 60 { b'\n' } else { b'A' + (j % 26) as u8 }).collect();
+                for pair in [(2usize, 0usize), (0, 13), (9, 16)] {
+                    for (ti, t) in TARGETS.iter().enumerate() {
+                        let case = Case::new("c17-plain").b(&data).n(pair.0 as i64).n(pair.1 as i64).n(ti as i64);
+                        let r = vcore::guarded(|| check_plain(pair.0, pair.1, &data, *t));
+                        eval(r, &mut st, case, true, true);
+                    }
+                }
+            }
+        }
         // standard-stream writer kinds (child processes, output captured from pipes) and the File kind after a failed call
         if cfg.tier != Tier::Tiny {
             let stdio_data: [&[u8]; 6] = [b"hello world", "\u{e9}\u{6f22}\u{1f600}".as_bytes(), b"caf\xe9.txt \xff\xfe|end", b"line\n", b"", b"a\x1b[1mb\xff"];
@@ -671,6 +771,12 @@ pub fn run(cfg: &Cfg) -> Stats {
                         let r = vcore::guarded(|| check_stdio(kind, pair.0, pair.1, data));
                         st.count("standard_stream_child_runs");
                         eval(r, &mut st, case, true, true);
+                        if pi >= 1 && pi <= 2 && di < 3 {
+                            let case = Case::new("c17-stdio-tls").b(data).n(pair.0 as i64).n(pair.1 as i64).n(ki as i64);
+                            let r = vcore::guarded(|| check_stdio_tls(kind, pair.0, pair.1, data));
+                            st.count("standard_stream_thread_local_destructor_runs");
+                            eval(r, &mut st, case, true, true);
+                        }
                         if pi < 2 && di < 2 {
                             let case = Case::new("c17-stdio-full").b(data).n(pair.0 as i64).n(pair.1 as i64).n(ki as i64);
                             let r = vcore::guarded(|| check_stdio_full(kind, pair.0, pair.1, data));
@@ -678,6 +784,23 @@ pub fn run(cfg: &Cfg) -> Stats {
                             eval(r, &mut st, case, true, true);
                         }
                     }
+                }
+            }
+            // data lengths around 512 and 1024 bytes on the standard streams (std's own and any added staging buffer)
+            for (ki, kind) in STDIO_KINDS.iter().enumerate() {
+                for len in (500..=516usize).chain(1020..=1028) {
+                    k += 1;
+                    if k % n != shard {
+                        continue;
+                    }
+                    if cfg.tier == Tier::Quick && (len + ki) % 2 == 1 {
+                        continue;
+                    }
+                    let data: Vec<u8> = (0..len).map(|j| b'a' + (j % 26) as u8).collect();
+                    let case = Case::new("c17-stdio").b(&data).n(2).n(0).n(ki as i64);
+                    let r = vcore::guarded(|| check_stdio(kind, 2, 0, &data));
+                    st.count("standard_stream_child_runs");
+                    eval(r, &mut st, case, true, true);
                 }
             }
             // a writer whose own write performs a coloured write
@@ -795,6 +918,9 @@ pub fn replay(case: &Case) -> Result<String, Viol> {
     let r = if case.kind == "c17-stdio-full" {
         let kind = STDIO_KINDS[case.nums.get(2).copied().unwrap_or(0) as usize % 4];
         vcore::guarded(|| check_stdio_full(kind, fgi, bgi, &data))
+    } else if case.kind == "c17-stdio-tls" {
+        let kind = STDIO_KINDS[case.nums.get(2).copied().unwrap_or(0) as usize % 4];
+        vcore::guarded(|| check_stdio_tls(kind, fgi, bgi, &data))
     } else if case.kind == "c17-stdio" {
         let kind = STDIO_KINDS[case.nums.get(2).copied().unwrap_or(0) as usize % 4];
         vcore::guarded(|| check_stdio(kind, fgi, bgi, &data))
